@@ -707,3 +707,44 @@ class skip_data:
         decoder.fo.rem == rest
         and decoder.fo.pos == old.decoder.fo.pos + len(A.BYTES(writer_schema, named_schemas["writer"], w))
         and decoder.fo.data == old.decoder.fo.data and decoder.fo.eof_hit == old.decoder.fo.eof_hit)
+
+
+# -------- C03: an index outside the schema's range raises instead of returning a value
+@target(RD, "read_union", behavior="badindex")
+class read_union_badindex:
+    types = dict(decoder="BinaryDecoder", writer_schema="list", named_schemas="dict", reader_schema="py", options="dict")
+    ghosts = dict(z="int", rest="bytes")
+    requires = lambda decoder, writer_schema: (
+        z >= 0 and decoder.fo.rem == S.varint(z) + rest
+        and (S.unzigzag(z) < 0 or S.unzigzag(z) >= len(writer_schema)))
+    modifies = ["decoder"]
+    call_ghosts = {"read_index": dict(z=lambda: z, rest=lambda: rest)}
+    raises = [R("IndexError", when=lambda: True)]
+    ensures = lambda: False
+
+
+@target(RD, "skip_union", behavior="badindex")
+class skip_union_badindex:
+    types = dict(decoder="BinaryDecoder", writer_schema="list", named_schemas="dict")
+    ghosts = dict(z="int", rest="bytes")
+    requires = lambda decoder, writer_schema: (
+        z >= 0 and decoder.fo.rem == S.varint(z) + rest
+        and (S.unzigzag(z) < 0 or S.unzigzag(z) >= len(writer_schema)))
+    modifies = ["decoder"]
+    call_ghosts = {"read_index": dict(z=lambda: z, rest=lambda: rest)}
+    raises = [R("IndexError", when=lambda: True)]
+    ensures = lambda: False
+
+
+@target(RD, "read_enum", behavior="badindex")
+class read_enum_badindex:
+    types = dict(decoder="BinaryDecoder", writer_schema="dict", named_schemas="dict", reader_schema="py", options="dict")
+    ghosts = dict(z="int", rest="bytes")
+    requires = lambda decoder, writer_schema: (
+        "symbols" in writer_schema and isinstance(writer_schema["symbols"], list)
+        and z >= 0 and decoder.fo.rem == S.varint(z) + rest
+        and (S.unzigzag(z) < 0 or S.unzigzag(z) >= len(writer_schema["symbols"])))
+    modifies = ["decoder"]
+    call_ghosts = {"read_enum": dict(z=lambda: z, rest=lambda: rest)}
+    raises = [R("IndexError", when=lambda: True)]
+    ensures = lambda: False
